@@ -26,3 +26,27 @@ package ipfsadd
 //@   requires adder != nil
 //@   at_call ipld.NodeAdder.Add assert [symlink-node-uses-the-requested-cid-builder] nd == as(dagnode, "ipld.Node") && lastBuilderNode == dagnode && lastBuilder == adder.CidBuilder
 //@   modifies *
+
+// ---- "on failure the root is not pinned": a directory whose listing or whose entry fails is an error ----
+// lastIterErr: what the directory iterator's Err() last answered; entryFailed: addFileNode calls that failed
+//@ ghost var lastIterErr error
+//@ ghost var entryFailed int
+//@ extern files.DirIterator.Err()
+//@   records lastIterErr = err
+//@   modifies nothing
+//@ func (adder *Adder) addFileNode
+//@   opts trusted
+//@   counts entryFailed when err != nil
+//@   modifies nothing
+//@ func (adder *Adder) mfsRoot
+//@   opts trusted
+//@   modifies nothing
+
+//@ func (adder *Adder) addDir
+//@   property C13
+//@   requires adder != nil
+//@   ensures [failed-entry-is-an-error] entryFailed != old(entryFailed) ==> err != nil
+//@   ensures [failed-listing-is-an-error] err == nil ==> lastIterErr == nil
+//@   loop 1 (for it.Next())
+//@     invariant entryFailed == old(entryFailed)
+//@   modifies entryFailed, lastIterErr
